@@ -12,8 +12,8 @@ META = ("other",
         "C19.R1 decision table of must_be_valid_iden over character classes: a name it accepts consists only of [A-Za-z0-9_] "
         "(so it contains no quote character and the generated fast path equals the general quoting); table of "
         "IdenVariant::must_be_valid_iden over (attribute kind x valid/invalid variant name x valid/invalid container name): it "
-        "validates exactly the name the variant renders; R2 the `fn prepare` fast path is generated only in the branch guarded by "
-        "that predicate / by is_all_valid, which starts true and is only updated by `&= variant.must_be_valid_iden()` for every "
+        "validates exactly the name the variant renders; R2 the `fn prepare` fast path is generated only on paths where a validity condition holds - "
+        "that predicate, or the flag is_all_valid, directly or handed to a helper as the bool it branches on - the flag starts true and is only updated by `&= variant.must_be_valid_iden()` for every "
         "variant; R3 name sources: snake_case of the identifier, the `Table` variant takes the container name, rename/method "
         "attributes; enum_def: PascalCase variants, stringify!(field), table_name or snake_case of the struct, prefix+ident+suffix; "
         "R4 witness expansions in tests/derive: literal of every arm = snake_case(variant) or its rename, fast path present iff "
